@@ -12,4 +12,4 @@ Extraction "c12_model.ml"
   pool_step pool_run message_class is_splitter keyed_request forces_refresh
   coord_at_version ktype_at_version via_coordinator discover_step discover_run refresh_turn
   E_deadline E_canceled K_FindCoordinator produce_record_version
-  split_describegroups describegroups_request rp_run rpool_init.
+  split_describegroups describegroups_request rp_run rpool_init client_metadata connection_setup.
